@@ -268,6 +268,17 @@ def structured(tier, rng):
                     yield case_line('pz.resolve', 3, f + [[21, off]])
         yield case_line('pz.resolve', 3, [[20, ts]])
         yield case_line('pz.resolve', 3, [[20, ts], [18, 60]])
+    # date and time fields with a timestamp to cross-check, incl. leap seconds (own count and one above)
+    for dn in [EPOCH_DN, EPOCH_DN - 1, dby(2012) + 182, dby(2016) + 366, DN_MIN, DN_MAX, dby(0) + 1, dby(-1) + 365]:
+        for secs, leap in ((86399, True), (86399, False), (0, False), (3599, True), (43259, True), (59, True)):
+            for off in (0, 1, -1, 3600, -86399, 86399, 59, 2699):
+                real = Real(dn, secs, 0, leap, off)
+                base = pairs_from(real, [0, 12, 16, 17, 18])
+                for dt in (-2, -1, 0, 1, 2):
+                    f = base + [[20, real.f[19] + dt]]
+                    yield case_line('pz.resolve', 2, f, off)
+                    yield case_line('pz.resolve', 3, f + [[21, off]])
+                    yield case_line('pz.resolve', 4, f, off)
     # offsets
     for o in around([0, 86399, 86400, -86399, -86400, I32_MAX, I32_MIN, I64_MAX, I64_MIN], lo=I64_MIN, hi=I64_MAX):
         yield case_line('pz.resolve', 5, [[21, o]])
